@@ -33,9 +33,19 @@ macro_rules! ctor_total {
 //@ cost: 2
 //@ funcs: vdaf::prio2::Prio2::new
 //@ bounds: input_len: every usize
-//@ asserts: returns Ok or Err; no arithmetic overflow, no panic (CBMC checks on all paths)
+//@ asserts: no arithmetic overflow, no panic; Ok iff 2 * nextpow2(input_len + 1) <= 2^20, i.e. input_len < 2^19
 //@ stubs: alloc::fmt::format -> empty string
-ctor_total!(c16_prio2_new, Prio2::new(kani::any()));
+#[kani::proof]
+#[kani::stub(alloc::fmt::format, fmt_stub)]
+pub fn c16_prio2_new() {
+    let n: usize = kani::any();
+    let r = Prio2::new(n);
+    // the proof polynomial has 2 * nextpow2(input_len + 1) points and must fit the 2^20-th roots of unity of the 32-bit field
+    assert_eq!(r.is_ok(), n < (1usize << 19));
+    kani::cover!(r.is_ok());
+    kani::cover!(r.is_err());
+    core::mem::forget(r);
+}
 
 //@ harness: c16_sum64_new
 //@ prop: C16
